@@ -668,7 +668,7 @@ func genChainOp(t *rapid.T, healthyPossible bool) chainOp {
 		return o
 	case 22:
 		// an invalid leaf anywhere in an Or (also before/between composite sub-clauses) must surface as Err
-		k := rapid.IntRange(0, 4).Draw(t, "orprobe")
+		k := rapid.IntRange(0, 12).Draw(t, "orprobe")
 		bad := qframe.Filter{Column: "never-created-col", Comparator: "=", Arg: 1}
 		ok1 := qframe.And(qframe.Filter{Column: "ti", Comparator: ">=", Arg: 0})
 		ok2 := qframe.Not(qframe.Filter{Column: "ti", Comparator: "<", Arg: 0})
@@ -683,8 +683,26 @@ func genChainOp(t *rapid.T, healthyPossible bool) chainOp {
 			clause = qframe.Or(okLeaf, bad, ok1, okLeaf)
 		case 3:
 			clause = qframe.And(okLeaf, qframe.Or(bad, ok2))
-		default:
+		case 4:
 			clause = qframe.Not(qframe.Or(qframe.Or(bad, ok1), okLeaf))
+		// the invalid leaf sits inside a composite sub-clause that follows sub-clauses which already hold every row
+		// (ti is 1 in every row), or none (And): nothing it could add or remove, but the misuse must still be reported
+		case 5:
+			clause = qframe.Or(ok1, qframe.And(bad))
+		case 6:
+			clause = qframe.Or(okLeaf, qframe.Not(bad))
+		case 7:
+			clause = qframe.Or(qframe.Null(), qframe.Or(bad, okLeaf))
+		case 8:
+			clause = qframe.Or(ok2, ok1, qframe.And(okLeaf, qframe.Not(bad)))
+		case 9:
+			clause = qframe.And(qframe.Not(ok1), qframe.Not(bad))
+		case 10:
+			clause = qframe.And(qframe.Filter{Column: "ti", Comparator: "<", Arg: 0}, qframe.Or(okLeaf, bad))
+		case 11:
+			clause = qframe.Or(qframe.Not(qframe.Filter{Column: "ti", Comparator: "<", Arg: 0}), qframe.And(okLeaf, qframe.Filter{Column: "ti", Comparator: "nosuchcomparator", Arg: 1}))
+		default:
+			clause = qframe.Not(qframe.And(qframe.Not(qframe.Null()), qframe.And(bad, okLeaf)))
 		}
 		return chainOp{desc: fmt.Sprintf("Or(invalid leaf, composite) probe %d", k), mustErr: true, run: func(qf qframe.QFrame) qframe.QFrame {
 			tq := qf.Apply(qframe.Instruction{Fn: 1, DstCol: "ti"})
